@@ -294,12 +294,17 @@ def monitor_failure(d, pid):
     except Exception:
         small, obs, r = events, d["obs"], {mon: d["verdict"]}
     v = r[mon] or d["verdict"]
-    at = int(v[0].split()[1]) if v and v[0].startswith("fail ") else -1
+    routing = bool(v) and v[0].startswith("routing ")
+    w = v[0].split() if v else []
+    at = int(w[-1]) if w and w[-1].isdigit() and "fail" in w else -1
     op = small[at].split()[0] if 0 <= at < len(small) else "?"
+    what = "%s monitor rejects the implementation's trace at step %d (%s)" % (pid, at, small[at] if 0 <= at < len(small) else "?")
+    if routing:
+        what = "C06: a reply was delivered to a request other than the one it answers, at step %d (%s)" % (at, small[at] if 0 <= at < len(small) else "?")
     return {
-        "what": "%s monitor rejects the implementation's trace at step %d (%s)" % (pid, at, small[at] if 0 <= at < len(small) else "?"),
+        "what": what,
         "scenario": {"header": list(header), "events": small, "impl_observations": obs, "verdict": v},
-        "tags": ["%s-step-%s" % (mon, op)],
+        "tags": ["%s-%s-%s" % (mon, "misrouted" if routing else "step", op)],
     }
 
 
